@@ -17,7 +17,7 @@ EXPLANATION = (
     '(counter, True, value, self.id) tuple on the result channel whose counter field is the post-increment value; _init_child '
     'resets the counter to 0 and precedes do_work. R4: each enqueue is dominated by a guard raising WorkerClosedError when not '
     'alive or closed; each _release_child sets the closed flag on every non-early-return path; close() and wait() reach it. '
-    'R5: the input channel is written only by enqueue/_release_child and read only by do_work; consumers unpack 4 fields.')
+    'R5: the input channel is written only by enqueue/_release_child and read only by do_work; consumers unpack 4 fields. R4: the reader delivers what was computed - next_result ends the stream only on the end marker, never blocks on a dead worker and never reads after the end (the reader rules of C06.R3).')
 TECHNIQUE = 'cross-checking sibling implementations against a template (AST + CFG path counting), def-use, who-may-write'
 
 KINDS = ['PersistentThreadWorker', 'PersistentProcessWorker', 'PersistentRemoteWorker']
@@ -43,6 +43,9 @@ def part_index(expr, recv_var, parts):
 
 
 def run(ctx):
+    # what was computed is delivered: the reader side of the result stream (shared with C06.R3)
+    from .c06 import check_reader
+    check_reader(ctx, 'R4')
     from ..frame import check_frame_attrs
     check_frame_attrs(ctx, 'C05', 'R5')
     P = ctx.prog
